@@ -305,6 +305,8 @@ def fmt_op(o):
             return "%s_%s" % (k["v"], k.get("ty", ""))
         if "def" in k:
             return "const:" + k["def"]
+        if "static" in k:
+            return "static:" + k["static"]
         return "const(%s)" % k.get("s", k.get("ty"))
     return str(o)
 
